@@ -233,7 +233,10 @@ pub fn generate(rng: &mut Rng, thorough: bool) -> Vec<String> {
             }
         }
     }
-    let big_incs = ["1440", "86400", "86400000", "43200000", "86400000000", "86400000000000", "720", "7", "1441", "1000000000", "500000000"];
+    // (2048, 1953125, 100000000: divisors of the microseconds of a day but not of its milliseconds; 65536: of its
+    // nanoseconds but not of its microseconds - they tell the per-unit maxima of Instant::round apart)
+    let big_incs = ["1440", "86400", "86400000", "43200000", "86400000000", "86400000000000", "720", "7", "1441", "1000000000", "500000000",
+                    "2048", "1953125", "100000000", "65536", "1024", "15625", "390625"];
     for l in UOPT {
         for s in UOPT {
             for inc in INCS.iter().chain(INCS_BAD.iter()).chain(big_incs.iter()) {
